@@ -1168,6 +1168,7 @@ queue:
 	p.decrWaitsAndIncrRecvs()
 	return resp
 abort:
+	verifPipeGap("do-abort")
 	go func(ch chan RedisResult) {
 		<-ch
 		p.decrWaitsAndIncrRecvs()
@@ -1280,6 +1281,7 @@ queue:
 	p.decrWaitsAndIncrRecvs()
 	return resp
 abort:
+	verifPipeGap("multi-abort")
 	go func(resp *redisresults, ch chan RedisResult) {
 		<-ch
 		resultsp.Put(resp)
